@@ -34,7 +34,8 @@ MANIFEST = dict(
     text='Decides that every traversal of the cell graph in the BoC code stops at already visited cells (structural rule over all descent sites, printing exempt), that ordering/serialising/hashing the n-cell '
          'maximal-sharing DAG performs a number of traversal calls linear in n (n up to 18, i.e. 2^18 paths), and that the BoC and TL parsers never run a loop more than a constant times the input length when any '
          'count or length field is set to its maximum on a short input. Wall-clock bounds and constants are not decided.'
-         ' The plain and augmented dictionary parsers are interpreted on bags whose root label is longer than the key (HmLabel n <= m violated): the number of parser calls must stay linear in the number of cells.',
+         ' The plain and augmented dictionary parsers are interpreted on bags whose root label is longer than the key (HmLabel n <= m violated): the number of parser calls must stay linear in the number of cells.'
+         ' Bags whose cells reference each other (cycles) terminate within the iteration bound.',
     note='trusted: interpreter (its call and loop counters), checker-side BoC encoder for the adversarial inputs. Dictionary parsing of maximally shared trees is exempt (the logical map itself is exponential there).',
     design_ref='DESIGN.md section 4 C19')
 
